@@ -21,6 +21,12 @@ CLAIMED = {
     "C14": dict(level="model_checking", ref="4/C14", technique="TLC model checking of Simplex.tla (all admissible pivots; Bland termination) + step-by-step TLA+ trace validation of the real Tableau (hook H3) against it",
                 text="Simplex.tla states the pivot rule nondeterministically and TLC checks its invariants (unit basis, feasibility, equivalence with the initial system, objective bookkeeping, optimality at Finish, monotonicity) for all 2x4 starts; every recorded pivot of the real Tableau must be a step of that machine and its float tableau must match the exact successor.",
                 note="integer start data; float comparison at 3e-4; termination claimed for solve/solve_step_by_step"),
+    "C04": dict(level="model_checking", ref="4/C04", technique="TLA+ trace validation (SolveTrace!PointProblems) of every solver entry point's returned point on TLC-enumerated LP/MILP models",
+                text="TLC enumerates small LP/MILP models (LpGen families, simulation for 3-variable models); each of the five entry points is run on each; returned points are checked exactly (snapped rationals) for completeness, rows, bounds, integrality, objective value and named-row activities.",
+                note="float answers are snapped to rationals with denominator <= 500 within 1e-6 or compared at 1e-3"),
+    "C05": dict(level="model_checking", ref="4/C05", technique="TLA+ trace validation (SolveTrace!Verdict: integer enumeration + Fourier-Motzkin optimisation as exact oracle) of every solver entry point's verdict on TLC-enumerated LP/MILP models",
+                text="Same events as C04; the verdict (optimum value / infeasible / unbounded, through the dedicated error kinds) must equal the specification's exact verdict; simplex-based entry points must reach a verdict (a watchdog timeout is a violation).",
+                note="optimal values compared at 1e-6 relative after snapping; integer ranges are the small declared ones"),
 }
 NOT_YET = {}
 ALL = [f"C{i:02d}" for i in range(1, 21)]
